@@ -152,6 +152,8 @@ def handle (j : Json) : R Json := do
                       ("LEADING_TRAILING_SPACE_DASH", "^[ -]+|[ -]+$"),
                       ("DASH_REGEX", "[-]+"),
                       ("HAP_SERVICE_TYPE", "_hap._tcp.local."),
+                      -- the handlers whose response carries a task (`Req.resource` only, cf. `handle`)
+                      ("TASK_HANDLERS", Json.arr #["handle_resource"]),
                       ("HAP_PROTOCOL_SHORT_VERSION", (Hap.Advert.lookup "pv" (advertData
                         { display := [], category := 0, mac := [], cfg := 0, paired := false, setupHash := "" })).getD "?")])
   | _ => throw s!"advert: unknown op {op}"
